@@ -165,6 +165,14 @@ Inductive xres := XOk (shape : list nat) (states : list S) | XErrConserve | XErr
 
 Definition sel (c : nat) (t : triple S) : S := match c with 0 => fp t | 1 => fm t | _ => fz t end.
 
+(* index set of the conservation test: khi (batch axes, left aligned) broadcast against the density;
+   every member of a batch of kinetic matrices is tested, also along axes where the state has size 1 *)
+Definition cons_shape (o : xop) (s : smN) : list nat :=
+  match bshape (removelast (fst (x_khi o))) (s_shape s) with
+  | Some r => set_at (x_ax o) 1 r
+  | None => set_at (x_ax o) 1 (s_shape s)
+  end.
+
 (* one entry (row-major position m) of the result array of shape oshape ++ [ns; 3] *)
 Definition x_entry (o : xop) (s : smN) (oshape : list nat) (m : nat) : S :=
   let ax := x_ax o in
@@ -191,7 +199,7 @@ Definition x_apply (o : xop) (s : smN) : xres :=
   let khiN (b : list nat) : matN := fun i j =>
     get (fst (x_khi o)) (snd (x_khi o)) (firstn (length kbs) (set_at ax i b) ++ [j]) in
   let densN (b : list nat) : nat -> S := fun j => get (s_shape s) (s_dens s) (set_at ax j b) in
-  if negb (forallb (fun b => conservesb n (khiN b) (densN b)) (all_idx (set_at ax 1 (s_shape s))))
+  if negb (forallb (fun b => conservesb n (khiN b) (densN b)) (all_idx (cons_shape o s)))
   then XErrConserve
   else if negb (Nat.eqb (nth ax (s_shape s) 0) 1 || Nat.eqb (nth ax (s_shape s) 0) n) then XErrShape
   else match bshape (x_shape o) (set_at ax n (s_shape s)) with
